@@ -6,6 +6,31 @@ package blobstore
 // it does not change the compiled package.
 
 // ---------------------------------------------------------------------------
+// Batched store: an acknowledged write is stored by the time the flush reports
+// success, or its failure is reported by that flush (C09)
+//
+// A failure recorded by an intermediate (batch-size triggered) flush stays
+// recorded until the final flush reports it; the final flush reports it
+// whether or not anything is still pending; a failed wait for an upload slot
+// ends the batch with that failure instead of silently skipping uploads.
+// slotfailure(nil): a wait for an upload slot failed during this call.
+//@ ghost map slotfailure(ref) int zero
+//@ stub github.com/buildbarn/bb-storage/pkg/util.AcquireSemaphore
+//@   modifies slotfailure[nil]
+//@   ensures slotfailure(nil) == old(slotfailure(nil)) + ite(r0 != nil, 1, 0)
+//@ func (*batchedStoreBlobAccess).flushLocked
+//@   props C09
+//@   ensures a-recorded-failure-stays-recorded: old(ba.flushError) != nil ==> ba.flushError != nil
+//@ func NewBatchedStoreBlobAccess$1
+//@   props C09
+//@   ensures the-final-flush-reports-a-recorded-failure: old(ba.flushError) != nil ==> r0 != nil
+//@   ensures reported-once: ba.flushError == nil
+//@ func (*batchedStoreBlobAccess).flushLocked$2
+//@   props C09
+//@   loop 0 invariant slotfailure(nil) == old(slotfailure(nil))
+//@   ensures a-failed-wait-for-an-upload-slot-fails-the-batch: slotfailure(nil) > old(slotfailure(nil)) ==> r0 != nil
+
+// ---------------------------------------------------------------------------
 // Mutable proto store: statistics are written back by version (C07)
 //
 // Every handle carries the version of its message (currentVersion) and the
